@@ -368,6 +368,10 @@ def Machine.aySetRegs (fx : Fixes) (m : Machine) (regs : Bytes) : Machine :=
   { m with ayRegs := regs.take 16,
            ayChip := if fx.ayWriteThrough then chipProgram m.ayChip regs else m.ayChip }
 
+/-- a program writing registers 0..13 through the two AY ports (select, then data) -/
+def Machine.ayViaPorts (m : Machine) (regs : Bytes) : Machine :=
+  (List.range 14).foldl (fun m k => (m.aySelect (BitVec.ofNat 8 k)).ayWrite (regs.getD k 0)) m
+
 /-! ### szx.rs -/
 
 /-- ASCII upper-casing of a chunk id (`to_uppercase` on the ids a well-formed file can carry) -/
